@@ -671,31 +671,55 @@ def intnsend(data: str, extra: str, split: int, pl: int) -> bool:
 
 def _line_shards(tier):
     out = []
-    for n in range(0, BOUNDS[tier]["n"] + 1):
-        for dl in (0, 1):
-            if n <= 3:
-                out.append(("len(s) == %d" % n, "dl == %d" % dl))
+    top = BOUNDS[tier]["n"]
+    for dl in (0, 1):
+        out.append(("len(s) <= 2", "dl == %d" % dl))
+        out.append(("len(s) == 3", "dl == %d" % dl))
+        for n in range(4, top + 1):
+            for a in range(7):
+                out.append(("len(s) == %d" % n, "dl == %d" % dl, "act == %d" % a))
+    return out
+
+
+def _lo_shards(tier):
+    out = []
+    for dl in (0, 1):
+        out.append(("len(s) <= 3", "dl == %d" % dl))
+        for n in range(4, BOUNDS[tier]["n"] + 1):
+            out.append(("len(s) == %d" % n, "dl == %d" % dl))
+    return out
+
+
+def _net_shards(tier):
+    out = []
+    for a in (1, 2):
+        for r in range(0, BOUNDS[tier]["ns"] - a + 1):
+            if a + r <= 1:
+                out.append(("len(ld) == %d" % a, "len(rest) == %d" % r))
             else:
-                for a in range(7):
-                    out.append(("len(s) == %d" % n, "dl == %d" % dl, "act == %d" % a))
+                out.append(("len(ld) == %d" % a, "len(rest) == %d" % r, "split <= 1"))
+                out.append(("len(ld) == %d" % a, "len(rest) == %d" % r, "split >= 2"))
+    return out
+
+
+def _intn_shards(tier):
+    out = []
+    for pl in (1, 2, 4):
+        out.append(("pl == %d" % pl, "len(s) <= %d" % pl))
+        for n in range(pl + 1, pl + BOUNDS[tier]["ni"] + 1):
+            out.append(("pl == %d" % pl, "len(s) == %d" % n))
     return out
 
 
 HARNESSES = [
     H(linerecv, shards=_line_shards, timeout={"quick": 100, "thorough": 1500}),
-    H(lineonly, shards=lambda tier: [("len(s) == %d" % n, "dl == %d" % dl)
-                                     for n in range(0, BOUNDS[tier]["n"] + 1) for dl in (0, 1)],
-      timeout={"quick": 100, "thorough": 1500}),
+    H(lineonly, shards=_lo_shards, timeout={"quick": 100, "thorough": 1500}),
     H(sendline, timeout={"quick": 60, "thorough": 300}),
-    H(netstring, shards=lambda tier: [("len(ld) == %d" % a, "len(rest) == %d" % r)
-                                      for a in (1, 2) for r in range(0, BOUNDS[tier]["ns"] - a + 1)],
-      timeout={"quick": 100, "thorough": 1500}),
+    H(netstring, shards=_net_shards, timeout={"quick": 100, "thorough": 1500}),
     H(netshape, shards=[("v == %d" % v,) for v in range(0, M + 2)], timeout={"quick": 100, "thorough": 600}),
     H(nettwo, shards=[("v1 == %d" % v,) for v in range(0, M + 1)], timeout={"quick": 100, "thorough": 600}),
     H(netsend, shards=[("len(data) == %d" % n,) for n in range(0, M + 2)], timeout={"quick": 60, "thorough": 300}),
-    H(intn, shards=lambda tier: [("pl == %d" % pl, "len(s) == %d" % n)
-                                 for pl in (1, 2, 4) for n in range(0, pl + BOUNDS[tier]["ni"] + 1)],
-      timeout={"quick": 100, "thorough": 1500}),
+    H(intn, shards=_intn_shards, timeout={"quick": 100, "thorough": 1500}),
     H(intnsend, shards=[("pl == %d" % pl,) for pl in (1, 2, 4)], timeout={"quick": 60, "thorough": 300}),
 ]
 
